@@ -920,6 +920,21 @@ fn dynval_entries(repo: &Path) -> Result<Vec<(String, String)>, String> {
             return Err(format!("basic.rs: `{name}` must hand `ptr` to exactly one function, found {calls:?}"));
         }
         let callee = calls[0].strip_prefix("self.").ok_or(format!("basic.rs: `{name}` hands `ptr` to `{}`, expected a method of the list", calls[0]))?;
+        // The hand-off must be UNCONDITIONAL: the argument belongs to this function (the MIR has
+        // no Drop for it) and only the ErasedList function releases or stores it, so a path that
+        // leaves before the call — an early return for an empty list, a `?`, a branch — forgets
+        // the value.  Between `let ptr = …;` and the call nothing but `unsafe {` or
+        // `let <name> = unsafe {` may stand.
+        let i = body.find("(ptr)").unwrap();
+        let before = body[..i].strip_suffix(calls[0]).unwrap_or(&body[..i]);
+        let lead = format!("{{letptr=unsafe{{NonNull::new_unchecked({arg}.0)}};");
+        let mid = before.strip_prefix(lead.as_str()).ok_or(format!(
+            "basic.rs: `{name}` does something before it turns its DynVal `{arg}` into `ptr` (`{}`): the hand-off to `{callee}` must be unconditional", &before[..before.len().min(60)]))?;
+        let plain_let = mid.strip_prefix("let").and_then(|r| r.strip_suffix("=unsafe{"))
+            .is_some_and(|id| !id.is_empty() && id.chars().all(|c| c.is_alphanumeric() || c == '_'));
+        if !(mid == "unsafe{" || plain_let) {
+            return Err(format!("basic.rs: `{name}` has `{mid}` between `let ptr` and the call of `{callee}`: every path must hand the element to the list function (an early exit forgets an owned value)"));
+        }
         out.push((name.to_string(), callee.to_string()));
     }
     if out.is_empty() {
